@@ -36,7 +36,9 @@ def texts_of(prog, style=None):
 
 
 def needs_fs(prog):
-    return len(prog["files"]) > len(prog["mains"]) or bool(prog.get("blobs"))
+    def has_file_access(stmts):
+        return any(s["k"] in ("include", "insert") or (s["k"] == "repeat" and has_file_access(s["body"])) for s in stmts)
+    return len(prog["files"]) > len(prog["mains"]) or bool(prog.get("blobs")) or any(has_file_access(s) for s in prog["files"].values())
 
 
 def run_pd(prog, texts=None, **kw):
